@@ -425,7 +425,22 @@ _MISSING = object()
 
 ABSENT = "<ABSENT>"
 SUPPORTED_VALUE_KINDS = ("int", "str", "float", "optint", "union", "lit", "bounded", "validated",
-                         "list_int", "dict_int", "set_int", "leaf", "any")
+                         "list_int", "dict_int", "set_int", "leaf", "any",
+                         "list_leaf", "dict_leaf", "list_kitem", "dict_kitem", "klist", "kset")
+SPEC_COLLECTION_KINDS = ("list_leaf", "dict_leaf", "list_kitem", "dict_kitem", "klist", "kset")
+
+
+def abs_for_kind(kind, value):
+    """Abstract value of a whole attribute value after the documented coercion into the attribute's
+    container type (a plain list / set of keyed items handed to a KeyedList / KeyedSet attribute is
+    re-packed into that container)."""
+    if kind == "klist" and isinstance(value, (list, tuple)):
+        return ["KeyedList", [_abs(e) for e in value]]
+    if kind == "kset" and isinstance(value, (list, tuple, set, frozenset)):
+        items = list(value)
+        return ["KeyedSet", sorted(([_abs(getattr(e, "k", None) if not isinstance(e, dict) else e.get("k")), _abs(e)]
+                                    for e in items), key=repr)]
+    return _abs(value)
 
 
 def _abs(v):
@@ -463,6 +478,17 @@ class HostModel:
         if a.get("prepare"):
             value = PREPARERS[a["prepare"]](None, value)
         ip = a.get("prepare_item")
+        if kind in SPEC_COLLECTION_KINDS:
+            if ip not in (None, "ident"):
+                raise Unmodelled("item preparer on spec elements")
+            if value is None:
+                value = {} if kind.startswith("dict") else []
+            want = dict if kind.startswith("dict") else (list, tuple, set, frozenset)
+            if type(value).__name__ in ("KeyedList", "KeyedSet"):
+                return value
+            if not isinstance(value, want):
+                raise Unmodelled("coercion of a foreign container")
+            return value
         if kind == "list_int":
             if value is None:
                 value = []
@@ -493,7 +519,7 @@ class HostModel:
             return _abs(v)
         if a["kind"] not in SUPPORTED_VALUE_KINDS:
             return _abs(v) if not (a.get("prepare") or a.get("prepare_item")) else None
-        return _abs(self.prepared(name, v))
+        return abs_for_kind(a["kind"], self.prepared(name, v))
 
     def dependants(self, changed):
         """Attributes to reset after `changed` was successfully mutated (transitive, in discovery order)."""
@@ -565,7 +591,7 @@ class HostModel:
         if verb in ("with", "update"):
             if not args or kw:
                 raise Unmodelled("form without a plain value")
-            return _abs(self.prepared(name, args[0]))
+            return abs_for_kind(kind, self.prepared(name, args[0]))
         if verb == "transform":
             if kw or not args:
                 raise Unmodelled("attribute transforms on a non-spec value")
@@ -579,7 +605,7 @@ class HostModel:
                 raise Unmodelled("transform raised")
             if getattr(type(nv), "__name__", "") == "_MissingType":
                 raise Unmodelled("transform returned a sentinel")
-            return _abs(self.prepared(name, nv))
+            return abs_for_kind(kind, self.prepared(name, nv))
         raise Unmodelled(verb)
 
 
